@@ -268,7 +268,8 @@ def all_modes(n, budget=300):
 QUICK = []
 for _n in (0, 1, 2, 3):
     QUICK += all_modes(_n)
-QUICK += [{'mode': ['normal'], 'n': 4, '_budget': 300}]
+QUICK += [{'mode': ['normal'], 'n': 4, '_budget': 300},
+          {'mode': ['string', 34], 'n': 4, '_budget': 300}]
 THOROUGH = []
 for _n in (0, 1, 2, 3, 4, 5):
     THOROUGH += all_modes(_n, 900)
